@@ -39,7 +39,8 @@ class StepAuthorization(PipelineBase):
             steps.append(StepD(sname,thr,pub)); info.append((thr,pub,files))
         if self.same_name and run.pick(2,'separated'):
             # the two namesakes need not be neighbours in the list
-            steps=[steps[0],StepD('mid',Int(32,False,0),[]),steps[1]]
+            steps=[steps[0],StepD('mid',1,[0]),steps[1]]
+            dirs[()].append(FileD('mid',0,BlockD('link',LinkD('mid',{'a':1},{'b':2}),[SigD(0,0)])))      # the step in between is satisfied whenever key 0 is in the table
         keys=[k for k in range(nfun) if run.pick(2,'key%d'%k)]
         ld=LayoutD(keys,steps)
         lb=BlockD('layout',ld,[SigD(OWNER,OWNER)])
